@@ -33,6 +33,7 @@ RULE = ('images of every CAMx binary format (uamiv AVERAGE/EMISSIONS/INSTANT/'
         'distinct = digest of the image spec.')
 RULE += (" The gridded reader's TSTEP attribute must be the encoded length of the first averaging interval (steps ending on another day included).")
 RULE += (' Species names include tagged variants beside their base (O3 and O3_A, O3_1_X, O3_1_X_Z) in gridded and boundary files; a quarter of the hand-built writer sources hold float64 variables.')
+RULE += (' The begin / end dates of the file header of gridded and boundary files are compared with the first / last time record of the same file.')
 ASSUMPTIONS = [
     'the reference codecs were written from the CAMx User\'s Guide record '
     'layouts; a misreading of the format documents shared with the '
@@ -233,6 +234,27 @@ def compare_decoded(d, c, spec, who):
             if a != b:
                 problems.append('%s: header %s decoded %r, written %r'
                                 % (who, key, a, b))
+        # the dates of the file header are those of the content: it begins
+        # with the first time record and ends with the last one
+        hd = d['header']
+        try:
+            hb = (refcamx.full_date(hd['ibdate']),
+                  int(round(hd['btime'])) * 10000)
+            he = (refcamx.full_date(hd['iedate']),
+                  int(round(hd['etime'])) * 10000)
+        except Exception as e:
+            hb = he = None
+            problems.append('%s: file header dates (%r, %r) are no YYJJJ '
+                            'dates: %s' % (who, hd.get('ibdate'),
+                                           hd.get('iedate'), e))
+        if hb is not None and d['tflag'] and hb != tuple(d['tflag'][0]):
+            problems.append('%s: the file header begins %s, the first time '
+                            'record %s' % (who, hb, tuple(d['tflag'][0])))
+        if he is not None and d.get('etflag') and \
+                he != tuple(d['etflag'][-1]):
+            problems.append('%s: the file header ends %s, the last time '
+                            'record ends %s' % (who, he,
+                                                tuple(d['etflag'][-1])))
         if spec['fmt'] == 'lateral_boundary':
             want = [refcamx.bdef_cells(ie, spec['nx'], spec['ny'])
                     for ie in (1, 2, 3, 4)]
